@@ -28,6 +28,7 @@ struct Edit {
     text: String,
     rule: &'static str,
     seq: usize,
+    close: bool,
 }
 
 struct FileCtx<'a> {
@@ -132,6 +133,7 @@ struct Rewriter<'a, 'b> {
     in_trait_impl: bool,
     rename_self: bool,
     rng_idents: HashSet<String>,
+    ref_idents: HashSet<String>,
 }
 
 fn norm_ws(s: &str) -> String {
@@ -140,7 +142,7 @@ fn norm_ws(s: &str) -> String {
 
 impl<'a, 'b> Rewriter<'a, 'b> {
     fn new(fx: &'b FileCtx<'a>) -> Self {
-        Rewriter { fx, edits: vec![], errors: vec![], loops: vec![], log: vec![], seq: 0, tmp: 0, in_trait_impl: false, rename_self: false, rng_idents: HashSet::new() }
+        Rewriter { fx, edits: vec![], errors: vec![], loops: vec![], log: vec![], seq: 0, tmp: 0, in_trait_impl: false, rename_self: false, rng_idents: HashSet::new(), ref_idents: HashSet::new() }
     }
     fn edit(&mut self, lo: usize, hi: usize, text: String, rule: &'static str) {
         self.seq += 1;
@@ -148,7 +150,14 @@ impl<'a, 'b> Rewriter<'a, 'b> {
             let from = norm_ws(&self.fx.src[lo..hi]);
             self.log.push(json!({"rule": rule, "line": self.fx.line_of(lo), "from": from.chars().take(160).collect::<String>(), "to": norm_ws(&text).chars().take(200).collect::<String>()}));
         }
-        self.edits.push(Edit { lo, hi, text, rule, seq: self.seq });
+        self.edits.push(Edit { lo, hi, text, rule, seq: self.seq, close: false });
+    }
+    /// a zero-width closing insertion: at equal offsets inner closers are emitted before outer ones
+    fn edit_close(&mut self, at: usize, text: String, rule: &'static str) {
+        self.edit(at, at, text, rule);
+        if let Some(e) = self.edits.last_mut() {
+            e.close = true;
+        }
     }
     fn fresh(&mut self) -> usize {
         self.tmp += 1;
@@ -181,7 +190,16 @@ impl<'a, 'b> Rewriter<'a, 'b> {
     }
     fn apply(&self, lo: usize, hi: usize) -> std::result::Result<String, String> {
         let mut es: Vec<&Edit> = self.edits.iter().filter(|e| e.lo >= lo && e.hi <= hi).collect();
-        es.sort_by_key(|e| (e.lo, e.seq));
+        es.sort_by_key(|e| {
+            let zero = e.lo == e.hi;
+            if zero && e.close {
+                (e.lo, 0u8, -(e.seq as i64))
+            } else if zero {
+                (e.lo, 1u8, e.seq as i64)
+            } else {
+                (e.lo, 2u8, e.seq as i64)
+            }
+        });
         let mut out = String::new();
         let mut pos = lo;
         for e in es {
@@ -247,6 +265,31 @@ impl<'a, 'b> Rewriter<'a, 'b> {
             Some(c) if mc.args.len() == 1 && c.inputs.len() == 1 => c,
             _ => return false,
         };
+        // X.iter().enumerate().for_each(|(i, m)| B)
+        if let Expr::MethodCall(en) = &*mc.receiver {
+            if en.method == "enumerate" && en.args.is_empty() {
+                if let (Some(recv), Pat::Tuple(pt)) = (self.iter_receiver(&en.receiver), &c2.inputs[0]) {
+                    if pt.elems.len() == 2 {
+                        let a = self.simple_pat(&pt.elems[0]);
+                        let b = self.simple_pat(&pt.elems[1]);
+                        if let (Some((pa, 0)), Some((pb, 0))) = (a, b) {
+                            let n = self.loops.len();
+                            let (elo, ehi) = self.fx.rng(mc.span());
+                            let line = self.fx.line_of(elo);
+                            let recv_txt = self.fx.text(recv.span()).to_string();
+                            let marker = self.new_loop(format!("enumerate for_each over {}", recv_txt), line);
+                            let (b2lo, b2hi) = self.fx.rng(c2.body.span());
+                            let head = format!("{{ let it__{n} = &({recv}); for {pa} in 0..it__{n}.len() {marker}{{ let {pb} = &it__{n}[{pa}]; ", n = n, recv = recv_txt, pa = pa, marker = marker, pb = pb);
+                            self.ref_idents.insert(pb.clone());
+                            self.edit(elo, b2lo, head, "R7");
+                            self.edit(b2hi, ehi, format!("; /*@LOOPEND:{}*/}} }}", n), "R7");
+                            self.visit_expr(&c2.body);
+                            return true;
+                        }
+                    }
+                }
+            }
+        }
         // optional map stage
         let (recv, map_c) = if let Some(r) = self.iter_receiver(&mc.receiver) {
             (r, None)
@@ -512,6 +555,31 @@ impl<'a, 'b> Rewriter<'a, 'b> {
                 }
             }
         }
+        // X.iter().enumerate()
+        if let Expr::MethodCall(mc) = &*f.expr {
+            if mc.method == "enumerate" && mc.args.is_empty() {
+                if let (Some(recv), Pat::Tuple(pt)) = (self.iter_receiver(&mc.receiver), &*f.pat) {
+                    if pt.elems.len() == 2 {
+                        let a = self.simple_pat(&pt.elems[0]);
+                        let b = self.simple_pat(&pt.elems[1]);
+                        if let (Some((pa, 0)), Some((pb, 0))) = (a, b) {
+                            let n = self.loops.len();
+                            let m = self.new_loop(hdr.clone(), line);
+                            let txt = format!(
+                                "{{ let it__{n} = &({x}); for {pa} in 0..it__{n}.len() {m}{{ let {pb} = &it__{n}[{pa}]; ",
+                                n = n, x = self.fx.text(recv.span()), pa = pa, m = m, pb = pb
+                            );
+                            self.ref_idents.insert(pb.clone());
+                            self.edit(for_lo, blo + 1, txt, "R7");
+                            self.edit(bhi - 1, bhi - 1, format!("/*@LOOPEND:{}*/", n), "M");
+                            self.edit(bhi, bhi, " }".to_string(), "R7");
+                            self.visit_block(&f.body);
+                            return;
+                        }
+                    }
+                }
+            }
+        }
         // X.chunks_exact(N)
         if let Expr::MethodCall(mc) = &*f.expr {
             if mc.method == "chunks_exact" && mc.args.len() == 1 {
@@ -542,6 +610,9 @@ impl<'a, 'b> Rewriter<'a, 'b> {
                 let n = self.loops.len();
                 let m = self.new_loop(hdr.clone(), line);
                 let elem = if d == 0 { format!("let {} = &it__{}[ik__{}];", p, n, n) } else { format!("let {} = it__{}[ik__{}];", p, n, n) };
+                if d == 0 {
+                    self.ref_idents.insert(p.clone());
+                }
                 let txt = format!(
                     "{{ let it__{n} = &({x}); for ik__{n} in 0..it__{n}.len() {m}{{ {elem} ",
                     n = n, x = self.fx.text(e.span()), m = m, elem = elem
@@ -693,6 +764,10 @@ impl<'a, 'b, 'ast> Visit<'ast> for Rewriter<'a, 'b> {
                             }
                         }
                     }
+                    if self.fx.ops && ps == "Integer::from" {
+                        let (lo, hi) = self.fx.rng(c.func.span());
+                        self.edit(lo, hi, "int_from".to_string(), "R9");
+                    }
                     if ps.ends_with("Expander::expand_message") {
                         let cs = p.path.segments.first().unwrap().ident.to_string();
                         let (lo, hi) = self.fx.rng(c.func.span());
@@ -771,7 +846,7 @@ impl<'a, 'b, 'ast> Visit<'ast> for Rewriter<'a, 'b> {
                         let (lo, hi) = self.fx.rng(u.span());
                         let (ilo, ihi) = self.fx.rng(u.expr.span());
                         self.edit(lo, ilo, "core::ops::Neg::neg(".to_string(), "R9");
-                        self.edit(ihi, hi, ")".to_string(), "R9");
+                        if ihi == hi { self.edit_close(hi, ")".to_string(), "R9"); } else { self.edit(ihi, hi, ")".to_string(), "R9"); }
                     }
                 }
                 visit::visit_expr(self, e);
@@ -800,32 +875,49 @@ fn is_simple_operand(e: &Expr) -> bool {
 }
 
 impl<'a, 'b> Rewriter<'a, 'b> {
+    fn is_refish(&self, e: &Expr) -> bool {
+        match e {
+            Expr::Reference(_) => true,
+            Expr::Paren(p) => self.is_refish(&p.expr),
+            Expr::Path(p) => p.path.get_ident().map(|i| self.ref_idents.contains(&i.to_string())).unwrap_or(false),
+            _ => false,
+        }
+    }
+
+    /// ops mode (CL03 / rug): comparisons become `icmp_xx(&(L), &(R))` (shim functions over the integer
+    /// view); arithmetic with a reference operand becomes the trait-method call rustc desugars it to
+    /// (Verus crashes on infix operators with a reference operand). Owned-operand arithmetic stays infix.
     fn rw_binop(&mut self, b: &ExprBinary) {
         let (lo, hi) = self.fx.rng(b.span());
         let (llo, lhi) = self.fx.rng(b.left.span());
         let (rlo, rhi) = self.fx.rng(b.right.span());
-        let both_lit = is_simple_operand(&b.left) && is_simple_operand(&b.right);
-        let f: Option<(&str, bool)> = match b.op {
-            BinOp::Add(_) => Some(("core::ops::Add::add", false)),
-            BinOp::Sub(_) => Some(("core::ops::Sub::sub", false)),
-            BinOp::Mul(_) => Some(("core::ops::Mul::mul", false)),
-            BinOp::Div(_) => Some(("core::ops::Div::div", false)),
-            BinOp::Rem(_) => Some(("core::ops::Rem::rem", false)),
-            BinOp::Shl(_) => Some(("core::ops::Shl::shl", false)),
-            BinOp::Shr(_) => Some(("core::ops::Shr::shr", false)),
-            BinOp::Eq(_) => Some(("core::cmp::PartialEq::eq", true)),
-            BinOp::Ne(_) => Some(("core::cmp::PartialEq::ne", true)),
-            BinOp::Lt(_) => Some(("core::cmp::PartialOrd::lt", true)),
-            BinOp::Le(_) => Some(("core::cmp::PartialOrd::le", true)),
-            BinOp::Gt(_) => Some(("core::cmp::PartialOrd::gt", true)),
-            BinOp::Ge(_) => Some(("core::cmp::PartialOrd::ge", true)),
+        let cmp: Option<&str> = match b.op {
+            BinOp::Eq(_) => Some("icmp_eq"),
+            BinOp::Ne(_) => Some("icmp_ne"),
+            BinOp::Lt(_) => Some("icmp_lt"),
+            BinOp::Le(_) => Some("icmp_le"),
+            BinOp::Gt(_) => Some("icmp_gt"),
+            BinOp::Ge(_) => Some("icmp_ge"),
             _ => None,
         };
-        if let (Some((name, byref)), false) = (f, both_lit) {
-            let amp = if byref { "&" } else { "" };
-            self.edit(lo, llo, format!("{}({}(", name, amp), "R9");
-            self.edit(lhi, rlo, format!("), {}(", amp), "R9");
-            self.edit(rhi, hi, "))".to_string(), "R9");
+        let arith: Option<&str> = match b.op {
+            BinOp::Add(_) => Some("core::ops::Add::add"),
+            BinOp::Sub(_) => Some("core::ops::Sub::sub"),
+            BinOp::Mul(_) => Some("core::ops::Mul::mul"),
+            BinOp::Div(_) => Some("core::ops::Div::div"),
+            BinOp::Rem(_) => Some("core::ops::Rem::rem"),
+            _ => None,
+        };
+        if let Some(name) = cmp {
+            self.edit(lo, llo, format!("{}(&(", name), "R9");
+            self.edit(lhi, rlo, "), &(".to_string(), "R9");
+            if rhi == hi { self.edit_close(hi, "))".to_string(), "R9"); } else { self.edit(rhi, hi, "))".to_string(), "R9"); }
+        } else if let Some(name) = arith {
+            if self.is_refish(&b.left) || self.is_refish(&b.right) {
+                self.edit(lo, llo, format!("{}((", name), "R9");
+                self.edit(lhi, rlo, "), (".to_string(), "R9");
+                if rhi == hi { self.edit_close(hi, "))".to_string(), "R9"); } else { self.edit(rhi, hi, "))".to_string(), "R9"); }
+            }
         }
         self.visit_expr(&b.left);
         self.visit_expr(&b.right);
@@ -973,6 +1065,13 @@ impl<'a, 'b> Walker<'a, 'b> {
                     rw.edit(mlo, mhi, String::new(), "R4");
                     rw.edit(blo + 1, blo + 1, " let mut self__m = self;".to_string(), "R4");
                     rw.rename_self = true;
+                }
+            }
+        }
+        for a in sig.inputs.iter() {
+            if let FnArg::Typed(pt) = a {
+                if let (Type::Reference(_), Pat::Ident(pi)) = (&*pt.ty, &*pt.pat) {
+                    rw.ref_idents.insert(pi.ident.to_string());
                 }
             }
         }
